@@ -54,7 +54,7 @@ CLAIMS["C15"] = dict(
           "cardinality and range queries against its contents; and OffsetMapper::map_offset -- for every deletion set of <=2 intervals and every "
           "valid non-decreasing pair of logical offsets the result is the offset-th live row, is not deleted, and the binary search terminates. "
           "take/take_rows themselves (async I/O over Arrow) are outside; the claim is restricted to these kernels."),
-    note="HashSet and RoaringBitmap are models (sorted array, <=3 intervals). map_offset: fragments of < 2^6 rows (one lookup) and < 2^4 (two lookups) in the quick tier, 2^10 / 2^6 in the thorough tier; the full 2^32 query does not finish.",
+    note="HashSet and RoaringBitmap are models (sorted array, <=3 intervals). map_offset: fragments of < 2^6 rows (one lookup) and < 2^4 (two lookups) in the quick tier, 2^8 / 2^6 in the thorough tier; the full 2^32 query does not finish.",
 )
 
 CLAIMS["C20"] = dict(
